@@ -573,26 +573,22 @@ Open Scope Z_scope.
 Ltac destr_list l :=
   destruct l as [|? [|? [|? [|? [|? ?]]]]]; try discriminate.
 
-Theorem to_numpy_order_partial_proof :
-  forall order, In order (perms_upto 4) -> involutive order = true ->
+Theorem to_numpy_order_correct_proof :
+  forall order, In order (perms_upto 4) ->
   forall sh ix, length sh = length order -> length ix = length order ->
     to_numpy_shape order sh = sh /\ to_numpy_pos order sh ix = dense_pos order sh ix.
 Proof.
   intros order Hin. vm_compute in Hin.
-  repeat (destruct Hin as [<-|Hin]; [intros Hinv; try (vm_compute in Hinv; discriminate);
-    intros sh ix Hs Hi; destr_list sh; destr_list ix; split; reflexivity|]).
+  repeat (destruct Hin as [<-|Hin];
+    [intros sh ix Hs Hi; destr_list sh; destr_list ix; split; reflexivity|]).
   destruct Hin.
 Qed.
 
-Theorem to_numpy_order_refuted_proof :
-  exists order sh, In order (perms_upto 4) /\ length sh = length order /\ to_numpy_shape order sh <> sh.
-Proof.
-  exists [1; 2; 0], [2; 3; 4]. split; [vm_compute; tauto|]. split; [reflexivity|]. vm_compute. congruence.
-Qed.
-
+(* non-vacuity: a 3-cycle (its own inverse is a different permutation) on a non-uniform shape *)
 Example to_numpy_nonvacuous :
-  In [2; 1; 0] (perms_upto 4) /\ involutive [2; 1; 0] = true
-  /\ to_numpy_shape [2; 1; 0] [2; 3; 4] = [2; 3; 4] /\ to_numpy_pos [2; 1; 0] [2; 3; 4] [1; 2; 3] = 23.
+  In [1; 2; 0] (perms_upto 4)
+  /\ to_numpy_shape [1; 2; 0] [2; 3; 4] = [2; 3; 4] /\ to_numpy_pos [1; 2; 0] [2; 3; 4] [1; 2; 3] = 23
+  /\ length (perms_upto 4) = 33%nat.
 Proof. vm_compute. tauto. Qed.
 End ToNumpy.
 
